@@ -119,7 +119,8 @@ theorem gamma_pdf_nonneg_rel (G : GammaDensitySpec) (d : Gamma ℝ) (hs : 0 < d.
     positivity
 
 /-- Gamma: `cdf` has derivative `pdf x` at every `x ≠ 0`.  (`x = 0` is the support boundary and the
-    only branch point of `Gamma::cdf` over ℝ — the `is_infinite` guards never fire.) -/
+    only branch point of `Gamma::cdf` over ℝ — the `is_infinite` guards never fire, and the
+    `scaled == 0.0` guard is `x·rate = 0`, impossible for `x > 0`, `rate > 0`.) -/
 theorem gamma_hasDerivAt_cdf_rel (G : GammaDensitySpec) (D : GammaLrDerivSpec) (d : Gamma ℝ)
     (hs : 0 < d.f_shape) (hr : 0 < d.f_rate) (x : ℝ) (hx : x ≠ 0) :
     HasDerivAt (Gamma.cdf d) (Gamma.pdf d x) x := by
@@ -134,7 +135,8 @@ theorem gamma_hasDerivAt_cdf_rel (G : GammaDensitySpec) (D : GammaLrDerivSpec) (
   · have hE : Gamma.cdf d =ᶠ[nhds x] fun y => SF.gamma_lr d.f_shape (y * d.f_rate) := by
       filter_upwards [Ioi_mem_nhds hpos] with y hy'
       have hy : 0 < y := hy'
-      unfold Gamma.cdf; model_norm; rw [if_neg (not_le.mpr hy)]
+      unfold Gamma.cdf; model_norm
+      rw [if_neg (not_le.mpr hy), if_neg (mul_ne_zero hy.ne' hr.ne')]
     rw [gamma_pdf_formula_rel G d hs hr x hpos]
     have h1 : HasDerivAt (fun y : ℝ => y * d.f_rate) d.f_rate x := by
       simpa using (hasDerivAt_id' x).mul_const d.f_rate
@@ -162,7 +164,8 @@ theorem gamma_continuous_cdf_rel (G : GammaDensitySpec) (D : GammaLrDerivSpec) (
       refine ((D.lr_tendsto_zero d.f_shape hs).comp ht).congr' ?_
       filter_upwards [self_mem_nhdsWithin] with y hy
       have hy' : 0 < y := hy
-      unfold Gamma.cdf; model_norm; rw [if_neg (not_le.mpr hy')]; rfl
+      unfold Gamma.cdf; model_norm
+      rw [if_neg (not_le.mpr hy'), if_neg (mul_ne_zero hy'.ne' hr.ne')]; rfl
   · exact (gamma_hasDerivAt_cdf_rel G D d hs hr x hx).continuousAt
 
 /-- Gamma: `∫ a..b pdf = cdf b - cdf a` for every `a ≤ b` (intervals across 0 included) -/
